@@ -198,9 +198,10 @@ PROPS = {
             dict(run="pkg/server/service/revision.VerifC18Sync", covers=["adopted", "refused"]),
             dict(run="pkg/server.VerifC18Status", covers=["adopted", "refused"]),
             dict(run="pkg/server/service/revision.VerifC18Concurrent", quick=dict(preempt=2), thorough=dict(preempt=3), covers=["done"], stress=5),
+            dict(run="pkg/server.VerifC18Takeover", quick=dict(preempt=2), thorough=dict(preempt=3), covers=["status-answered", "status-refused", "done"], no_native=True),
             dict(run="pkg/zzc15.VerifC15Gate", name="C18_gate", quick=dict(preempt=2), thorough=dict(preempt=3), covers=["client-served-by-new-leader", "client-turned-away", "done"], no_native=True),
         ],
-        bounds=dict(quick="every handler of both APIs (etcd Txn x3 shapes, Range get/list/count/partitions, Watch; native Create/Update/Delete/Compact/Get/Range/Count/ListPartition/RangeStream/Watch) x {leader, follower} x {proxy on, off} x {leader reachable, unreachable}, with symbolic revisions (zero, old, far future, negative through the etcd API), limits, values and optional range ends in every request; watch start revision symbolic (a negative one is a streamed range read and must sync like any read); the real revision syncer against a leader that answers with a symbolic revision / an error status / not at all / with its answer cut after the headers; the real syncer against the real /status handler of a node that is / is not leader (response writer with net/http's status contract); 2 concurrent follower reads sharing the real single-flight fetch while the leader commits a write (<= 2 scheduling delays); a node in the middle of its take-over: whenever it says it is leader the revision it publishes covers everything stored (<= 2 delays)",
+        bounds=dict(quick="every handler of both APIs (etcd Txn x3 shapes, Range get/list/count/partitions, Watch; native Create/Update/Delete/Compact/Get/Range/Count/ListPartition/RangeStream/Watch) x {leader, follower} x {proxy on, off} x {leader reachable, unreachable}, with symbolic revisions (zero, old, far future, negative through the etcd API), limits, values and optional range ends in every request; watch start revision symbolic (a negative one is a streamed range read and must sync like any read); the real revision syncer against a leader that answers with a symbolic revision / an error status / not at all / with its answer cut after the headers; the real syncer against the real /status handler of a node that is / is not leader (response writer with net/http's status contract); 2 concurrent follower reads sharing the real single-flight fetch while the leader commits a write (<= 2 scheduling delays); a node in the middle of its take-over (built by the real NewServer wiring, asked through its real /status handler; and at the backend level): whenever it answers as leader the revision it publishes covers everything stored (<= 2 delays)",
                     thorough="3 scheduling delays for the concurrent reads; the handler enumeration is complete in both tiers"),
         assumptions=["C18_gate (the /status revision and a write served during a leader change) is decided over the model of client-go's elector and is not replayed natively"],
         outside="TLS / schema retry of the syncer (http only); the etcd proxy client; more than 2 concurrent follower reads",
